@@ -105,6 +105,7 @@ func runC06(r *Run, verifDir string) {
 	c06D8(r)
 	c06D9(r)
 	c06D10(r)
+	c06D13(r)
 	r.Rule("C06.D12", "the opaque container records the tag of what it holds: Value.TagDecodeTTLV stores its tag on every successful return", 1)
 	valueTagRecorded(r, "C06.D12")
 	(&lexCtx{r: r, p: r.P, ord: map[string]int{}}).l1Hex("C06.D11")
@@ -1191,4 +1192,68 @@ func indexLowerBound(idx ssa.Value, at *ssa.BasicBlock) (int64, string, bool) {
 		}
 	}
 	return lb, how, true
+}
+
+// c06D13: decoding a response item does not depend on its status: the payload of the item's operation is decoded
+// whenever it is present. (Only Success excludes an error for the *caller*; Operation Pending and Operation Undone
+// items legitimately carry payloads, and a decoder that refuses them fails the whole message.) In the hand-written
+// decoder of ResponseBatchItem no branch condition reads ResultStatus or calls Err().
+func c06D13(r *Run) {
+	p := r.P
+	r.Rule("C06.D13", "the response item decoder decodes the payload whatever the item's status", 1)
+	fn := p.Func("", "ResponseBatchItem", "TagDecodeTTLV")
+	key := "kmip.ResponseBatchItem.TagDecodeTTLV/status-independent"
+	if fn == nil {
+		r.Unk("C06.D13", key, token.NoPos, "anchor missing")
+		return
+	}
+	bad := token.NoPos
+	withClosures(fn, func(f *ssa.Function) {
+		allInstrs(f, func(in ssa.Instruction) {
+			iff, ok := in.(*ssa.If)
+			if !ok {
+				return
+			}
+			var dep func(v ssa.Value, d int) bool
+			dep = func(v ssa.Value, d int) bool {
+				if d > 5 {
+					return false
+				}
+				switch x := v.(type) {
+				case *ssa.BinOp:
+					return dep(x.X, d+1) || dep(x.Y, d+1)
+				case *ssa.UnOp:
+					if x.Op == token.MUL {
+						if _, fld, ok := fieldAddrOf(x.X); ok && fname(fld) == "ResultStatus" {
+							return true
+						}
+					}
+					return dep(x.X, d+1)
+				case *ssa.Call:
+					id := callID(&x.Call)
+					if id.recv == "ResponseBatchItem" && id.name == "Err" {
+						return true
+					}
+				case *ssa.Phi:
+					for _, e := range x.Edges {
+						if dep(e, d+1) {
+							return true
+						}
+					}
+				}
+				return false
+			}
+			if dep(iff.Cond, 0) {
+				bad = iff.Cond.Pos()
+				if !bad.IsValid() {
+					bad = fn.Pos()
+				}
+			}
+		})
+	})
+	if bad.IsValid() {
+		r.Bad("C06.D13", key, bad, "the decoder of ResponseBatchItem branches on the item's Result Status (or Err()): items whose status is not Success but which carry a payload of their operation (Operation Pending, Operation Undone) are refused, and with them the whole response message")
+	} else {
+		r.OK("C06.D13", key, fn.Pos(), "no branch of the decoder depends on ResultStatus or Err()")
+	}
 }
